@@ -265,6 +265,11 @@ let eval_step (leg : string) (cx : ctx) (st : srv_step) : (string * string * str
              let sp = (match o with
                  | None -> "-"
                  | Some _ when leg = "c14.corr" -> "-"
+                 (* a cursor INSIDE a declaring identifier (`local function na|me`, a parameter being written) is not the
+                    completion of a bare identifier prefix at a use site: the theorems (C14_complete_bytes_partial,
+                    is_decl (s_role o) = false) make no demand there, so neither does the leg. Found by the thorough tier:
+                    with the declaring keyword on the previous line the server offers the name being declared *)
+                 | Some o when is_decl o.s_role -> "-"
                  | Some o ->
                    let visible = List.filter not_self (env_names o.s_env []) in
                    if complete_ok cx.sw p.fnb visible pre (z1 line) (z_of_int col) labels then m
